@@ -2,9 +2,9 @@
 """Generates the AcceptDispatch TLC configs (design + NEG variants) from one table."""
 import os
 HERE = os.path.dirname(os.path.abspath(__file__))
-VARIANTS = ["IgnoreUnknownIdx", "UnlinkOnDeregister", "IncBeforeSend", "NoClearOnLimit", "ResumeSkipsAcceptAll",
+VARIANTS = ["IgnoreUnknownIdx", "UnlinkOnDeregister", "ResumeClearsBackoff", "IncBeforeSend", "NoClearOnLimit", "ResumeSkipsAcceptAll",
             "BackoffNeverReregisters", "RoundRobinStuck", "ConnErrIsFatal", "WakeSkipsAcceptAll", "PauseKeepsRegistered"]
-DESIGN = {"IgnoreUnknownIdx": "TRUE"}
+DESIGN = {"IgnoreUnknownIdx": "TRUE", "ResumeClearsBackoff": "TRUE"}
 INVS = ("TypeOK C01_Conservation C01_ServedOnce C01_NoSilentDrop C02_Bound C02_NoForcedSend C03_NoLostWake "
         "C04_RoundRobin C05_ListenerLive C05_UdsReachable C05_ConnErrNoDelay C05_TimerHasTimeout C08_NoPanic "
         "C08_NoSpin C08_NoGhostBit C08_NoDupHandles C08_FaultReportedOnce")
@@ -48,7 +48,9 @@ cfg("MC_fault_w1", 1, 2, 1, [], 3, faults=1, edges=True)
 cfg("MC_fault2", 2, 1, 1, [], 4, faults=2)
 cfg("MC_fault_w3", 3, 1, 1, [], 4, faults=2)
 # commands and accept errors (C05)
-cfg("MC_cmd_quick", 1, 1, 2, [2], 2, cmds=3, errs=1, edges=True)
+cfg("MC_cmd_quick", 1, 1, 1, [1], 2, cmds=2, errs=1, edges=True)
+cfg("MC_cmd_c3", 1, 1, 1, [], 2, cmds=3, errs=1)
+cfg("MC_cmd_2l", 1, 1, 2, [2], 2, cmds=3, errs=1)
 cfg("MC_cmd_w2", 2, 1, 2, [2], 3, cmds=3, errs=2)
 cfg("MC_cmd_fault", 2, 1, 2, [2], 3, cmds=2, errs=1, faults=1)
 # liveness form of C03 on the smallest config
@@ -59,9 +61,7 @@ cfg("NEG_WakeAtLimit", 1, 1, 1, [], 2, wake=1)                       # as found:
 cfg("NEG_WakeAtLimit_l2", 1, 2, 1, [], 3, wake=2)
 cfg("NEG_WakeAtLimit_w2", 2, 2, 1, [], 5, wake=2)
 cfg("NEG_LIVE_WakeAtLimit", 1, 1, 1, [], 2, wake=1, spec="FairSpec", props="C03_Live", invs="")
-cfg("NEG_IgnoreUnknownIdx_panic", 1, 2, 1, [], 4, faults=1, wake=2, flip=["IgnoreUnknownIdx"])   # as found
 cfg("NEG_IgnoreUnknownIdx_2f", 2, 1, 1, [], 4, faults=2, flip=["IgnoreUnknownIdx"])
-cfg("NEG_IgnoreUnknownIdx_panic_only", 1, 2, 1, [], 4, faults=1, wake=2, flip=["IgnoreUnknownIdx"], invs="C08_NoPanic", props="")
 cfg("NEG_IgnoreUnknownIdx_2f_panic_only", 2, 1, 1, [], 4, faults=2, flip=["IgnoreUnknownIdx"], invs="C08_NoPanic", props="")
 cfg("NEG_IgnoreUnknownIdx_spin_only", 3, 1, 1, [], 4, faults=2, flip=["IgnoreUnknownIdx"], invs="C08_NoSpin", props="")
 cfg("NEG_UnlinkOnDeregister", 1, 1, 2, [2], 2, cmds=2, flip=["UnlinkOnDeregister"])
@@ -71,4 +71,5 @@ cfg("NEG_RoundRobinStuck", 2, 2, 1, [], 3, flip=["RoundRobinStuck"])
 cfg("NEG_ConnErrIsFatal", 1, 1, 1, [], 2, errs=1, flip=["ConnErrIsFatal"])
 cfg("NEG_WakeSkipsAcceptAll", 1, 1, 1, [], 2, flip=["WakeSkipsAcceptAll"])
 cfg("NEG_PauseKeepsRegistered", 1, 1, 1, [], 2, cmds=2, flip=["PauseKeepsRegistered"])
+cfg("NEG_ResumeClearsBackoff", 1, 1, 1, [], 2, cmds=3, errs=1, flip=["ResumeClearsBackoff"], invs="", props="Steps")
 print("configs written")
